@@ -604,3 +604,6 @@ fn verif_neg_cases() {
 
 // C10 / C11 glue harness (unit u4)
 mod gr_glue { include!(concat!(env!("VERIF_HX_DIR"), "/daemon/event_gr_hx.rs")); }
+
+// C01 session-level harness (unit u13)
+mod c01 { include!(concat!(env!("VERIF_HX_DIR"), "/daemon/event_c01_hx.rs")); }
